@@ -109,5 +109,22 @@ PROPS["C02"] = {
     "trusted_base": API_TRUST,
 }
 
+PROPS["C03"] = {
+    "engine": "api", "properties_file": "Properties/C03.v", "env": {"TZ": "UTC"}, "model_files": ["Model/WireTypes.v", "Model/Codec.v", "Model/Interp.v", "Model/Ops.v", "Model/CasesApi.v", "Spec/Protocol.v", "Spec/ApiSpec.v", "Spec/ReplySpec.v", "Spec/RecvSpec.v", "Gen/Layouts.v"],
+    "technique": "Coq: theorems over all finite datagram sequences about sendto and the broadcast filter; differential run of exhaustive short class sequences through a recording driver on the three paths",
+    "level_text": "Proved for every configuration, operation and finite sequence of datagrams: a non-error result is based on a delivered datagram that arrived, is 64 bytes long, passes the protocol-id gate (0x17, or 0x19 with function 0x20), carries the operation's function code and serial number S, and the result is the decoding of exactly that datagram; on the broadcast path any prefix of wrong-length / other-serial datagrams is skipped and the result is a function of the first accepted datagram only; on every path a delivered wrong-length or wrong-serial datagram, a wrong protocol id or a wrong function code fails the call. Tied by exhaustive class sequences (9 classes, length <= 2 quick / <= 3 thorough) and random longer ones through the recording driver on the broadcast, UDP and TCP routes, with the C02 reply oracle deciding the accepted datagram's interpretation.",
+    "level_note": "Partial: the receive loops of the real ut0311 driver (deadline, one read per datagram, SetAddress returning without reading) are modelled in Model/Driver.v and exercised on loopback sockets by the net engine; what the kernel delivers is observed, not proved. Trusted: as C01.",
+    "rule": "per path x sampled operation (GetStatus always): all sequences over the 9 datagram classes up to the length bound, random sequences of 3-12, and a driver error. Non-trivial = at least one datagram.",
+    "trusted_base": API_TRUST,
+}
+PROPS["C11"] = {
+    "engine": "api", "properties_file": "Properties/C11.v", "env": {"TZ": "UTC"}, "model_files": ["Model/WireTypes.v", "Model/Codec.v", "Model/Interp.v", "Model/Ops.v", "Model/CasesApi.v", "Spec/Protocol.v", "Spec/ApiSpec.v", "Spec/ReplySpec.v", "Spec/RecvSpec.v", "Gen/Layouts.v"],
+    "technique": "Coq: discovery = order-preserving filter-map over any reply sequence (induction via flat_map), noise-insertion theorem; differential run with reply multisets and interleaved malformed datagrams",
+    "level_text": "Proved for all reply sequences: GetDevices never fails because of what arrived; the result of a concatenation is the concatenation of the results (arrival order, duplicates kept); a datagram that does not decode contributes nothing wherever it is inserted; a decodable 64-byte reply contributes exactly one entry, the protocol decoding of that reply with the address completed by the broadcast port and the configured name. Tied by generated multisets (0-12 replies, duplicate serials, permutations) with wrong-length / wrong-id / wrong-function / bad-BCD datagrams interleaved; the oracle walks replies and entries in lockstep (a BCD-valid but impossible date may be listed with the zero date or dropped).",
+    "level_note": "Partial: the collecting loop of ut0311.Broadcast (everything that arrives before the timeout) is exercised on loopback sockets by the net engine. Trusted: as C01.",
+    "rule": "generated discovery rounds; non-trivial = at least one datagram; distinct = distinct Coq case terms.",
+    "trusted_base": API_TRUST,
+}
+
 DEV = {"API": {"engine": "api", "properties_file": "Properties/C12.v", "model_files": [], "env": {"TZ": "UTC"}}}
 NOT_YET = {}
